@@ -364,7 +364,7 @@ theorem npRMat_wf : npRMat.WF := SMat.ofRows_WF 3 2 _ [] rfl (by
 
 theorem npR_holds : Env.HoldsProblem (toProblem npR) npRMat npRCov [] := by
   have hin := Net.inputOK npR (npW_dims 2 [1]) (npW_rows 2 [1])
-  refine ⟨hin.blocks, hin.dims, ?_, npRMat_wf, by decide, rfl, rfl, rfl, ?_, ?_⟩
+  refine ⟨hin.blocks, hin.dims, ?_, npRMat_wf, rfl, rfl, rfl, ?_, ?_⟩
   · show npRCov.Built (Env.covMats (toProblem (npW 2 [1]))) []
     rw [npW2_toProblem]
     have h0 := Cov.BlockDiag.built_init (0 : ℝ) 2 4
